@@ -438,6 +438,12 @@ func (r *vfC17Run) closeAndObserve(sched int, plan string, closers func()) vfC17
 			}
 		}
 	}
+	if res.leak == "unclassified" {
+		// a connection in the hands of a goroutine that waits for a pool lock held for good
+		if sig := vfC17LockSig(vfGoroutineDump(), nil); sig != "unknown" {
+			res.leak = "pool-lock-deadlock:" + sig
+		}
+	}
 	res.recs = r.records(sched, end)
 	return res
 }
@@ -737,6 +743,14 @@ func TestVfC17Sessions(t *testing.T) {
 		funcs := map[string]bool{}
 		for _, g := range gs {
 			funcs[vfC17TopFunc(g)] = true
+			excluded[vfC17GoroutineID(g)] = true // reported once, not again with every later batch
+		}
+		lockSig := ""
+		if len(gs) > 0 {
+			// goroutines that can never end because a pool method waits for the lock it holds
+			if sig := vfC17LockSig(strings.Join(gs, "\n\n"), nil); sig != "unknown" {
+				lockSig = "pool-lock-deadlock:" + sig
+			}
 		}
 		var fl []string
 		for f := range funcs {
@@ -744,6 +758,9 @@ func TestVfC17Sessions(t *testing.T) {
 		}
 		sort.Strings(fl)
 		brec := vfC17Rec{Sched: 100000 + b, Ev: "b_end", Conns: []int{}, Open: []int{}, Dead: []int{}, Gor: len(gs), Q: strings.Join(fl, ",")}
+		if lockSig != "" {
+			brec.Q = lockSig
+		}
 		out.Write(vfC17Rec{Sched: 100000 + b, Ev: "init", Conns: []int{}, Open: []int{}, Dead: []int{}})
 		out.Write(brec)
 		if len(gs) > 0 {
